@@ -26,6 +26,33 @@ ANCHORS = [
     "identity_storage/src/key_id_storage/method_digest.rs",
 ]
 
+# Every other non-test source file of the library crates is inventoried too (tighter tie: a new panic-capable site anywhere in
+# the library has to be classified).  Anchored files keep their short names; the others are named <crate>/<path below src/>.
+CRATES = ["identity_core", "identity_did", "identity_document", "identity_verification", "identity_jose", "identity_credential",
+          "identity_iota_core", "identity_storage", "identity_resolver", "identity_eddsa_verifier", "identity_ecdsa_verifier",
+          "identity_stronghold"]
+
+
+def extra_files(root=None):
+    import glob, os
+    root = root or os.environ.get("VERIF_REPO", "/repo")
+    out = []
+    for c in CRATES:
+        for f in sorted(glob.glob("%s/%s/src/**/*.rs" % (root, c), recursive=True)):
+            rel = os.path.relpath(f, root)
+            base = os.path.basename(rel)
+            if rel in ANCHORS or "/tests/" in rel or base in ("tests.rs", "test_utils.rs") or "/test_utils/" in rel:
+                continue
+            out.append(rel)
+    return out
+
+
+def short_name(rel):
+    if rel in ANCHORS:
+        return rel.split("/src/")[0].replace("identity_", "") + "/" + rel.rsplit("/", 1)[1]
+    return rel.split("/src/")[0].replace("identity_", "") + "/" + rel.split("/src/", 1)[1]
+
+
 KINDS = [
     ("unwrap", re.compile(r"\.unwrap\(\)")),
     ("expect", re.compile(r"\.expect\(")),
@@ -83,7 +110,7 @@ def functions(text):
 
 def inventory(read):
     sites = []
-    for rel in ANCHORS:
+    for rel in ANCHORS + extra_files():
         text = read(rel)
         text = drop_cfg_test_items(strip_tests(strip_comments(text)))
         text = strip_attrs(strip_strings(text))
@@ -93,7 +120,7 @@ def inventory(read):
                 c = len(rx.findall(body))
                 if c:
                     per[(name, kind)] = per.get((name, kind), 0) + c
-        short = rel.split("/src/")[0].replace("identity_", "") + "/" + rel.rsplit("/", 1)[1]
+        short = short_name(rel)
         for (name, kind), c in sorted(per.items()):
             sites.append((short, name, kind, c))
     return sites
@@ -112,7 +139,9 @@ def gen_C05(read, log):
     out.append("def sites : List (String × String × String × Nat) := [")
     out.append(",\n".join('  ("%s", "%s", "%s", %d)' % s for s in sites))
     out.append("]\n")
-    log("GEN panic-site inventory: %d sites in %d files" % (len(sites), len(ANCHORS)))
+    nfiles = len(ANCHORS) + len(extra_files())
+    out.append("/-- number of source files inventoried (anchored files + every other non-test file of the library crates) -/\ndef filesInventoried : Nat := %d\n" % nfiles)
+    log("GEN panic-site inventory: %d sites in %d files (%d anchored)" % (len(sites), nfiles, len(ANCHORS)))
 
     # --- MethodDigest::unpack
     md = strip_comments(read("identity_storage/src/key_id_storage/method_digest.rs"))
@@ -158,5 +187,36 @@ def gen_C05(read, log):
     out.append("/-- `digest` is `split('-').nth(1).unwrap()` -/\ndef integrityDigestIsSecondOfSplit : Bool := %s" % ("true" if dig == "self.0.split('-').nth(1).unwrap()" else "false"))
     out.append("/-- base `digest_bytes` decodes (and unwraps) in -/\ndef integrityDigestBytesBase : String := \"%s\"" % (mb.group(1) if mb else ""))
     log("GEN IntegrityMetadata: splitn3 %s, parse base %s, digest_bytes base %s" % (splits3, md2.group(1) if md2 else None, mb.group(1) if mb else None))
+
+    # --- LinkedDomainService / LinkedVerifiablePresentationService: which endpoint shapes check_structure refuses
+    def arm(body, variant, what):
+        m = re.search(re.escape("ServiceEndpoint::%s(" % variant) + r"\w+\)=>(\{?)(Err\(|Ok\(|.)", body)
+        if not m:
+            raise Unsupported("%s: arm for ServiceEndpoint::%s not found" % (what, variant))
+        if m.group(2) == "Err(":
+            return True
+        if m.group(2) == "Ok(":
+            return False
+        return None
+    ld = strip_comments(read("identity_credential/src/credential/linked_domain_service.rs"))
+    ldc = ws(find_fn_body(ld, "check_structure"))
+    ld_set = arm(ldc, "Set", "LinkedDomainService::check_structure")
+    if ld_set is None:
+        raise Unsupported("LinkedDomainService::check_structure: Set arm is neither Err nor Ok")
+    ld_empty = "ifendpoint.is_empty(){returnErr(" in ldc
+    ld_orig = bool(re.search(r'\.get\("origins"\)\.ok_or_else\(', ldc))
+    if not ld_orig and '.get("origins")' not in ldc:
+        raise Unsupported("LinkedDomainService::check_structure: origins lookup not found")
+    lv = strip_comments(read("identity_credential/src/credential/linked_verifiable_presentation_service.rs"))
+    lvc = ws(find_fn_body(lv, "check_structure"))
+    lv_map = arm(lvc, "Map", "LinkedVerifiablePresentationService::check_structure")
+    if lv_map is None:
+        raise Unsupported("LinkedVerifiablePresentationService::check_structure: Map arm is neither Err nor Ok")
+    b = lambda x: "true" if x else "false"
+    out.append("/-- `LinkedDomainService::check_structure` refuses a set endpoint -/\ndef ldSetRefused : Bool := %s" % b(ld_set))
+    out.append("/-- ... refuses an empty endpoint map -/\ndef ldEmptyMapRefused : Bool := %s" % b(ld_empty))
+    out.append("/-- ... refuses an endpoint map without `origins` (`.get(\"origins\").ok_or_else(..)?`) -/\ndef ldOriginsRequired : Bool := %s" % b(ld_orig))
+    out.append("/-- `LinkedVerifiablePresentationService::check_structure` refuses a map endpoint -/\ndef lvpMapRefused : Bool := %s" % b(lv_map))
+    log("GEN linked services: ld set refused %s, empty map refused %s, origins required %s; lvp map refused %s" % (ld_set, ld_empty, ld_orig, lv_map))
     out.append("\nend IdModel.Gen.C05\n")
     return "\n".join(out)
